@@ -3,7 +3,18 @@
     parameters followed by a var-keyword parameter), over the dialect tables GENERATED from dialects.py.
     Python's float() is not modelled: it is an oracle [fo : text -> option repr]
     (None = ValueError), recorded from the running interpreter for every text of a run;
-    theorems quantify over every such oracle.  No proofs here. *)
+    theorems quantify over every such oracle.  No proofs here.
+
+    Validated against the implementation (tools/props/c14.py, every run) on: empty text, empty
+    entries, positional/keyword mixtures in any interleaving, duplicate keys (dict: last value wins,
+    first position kept), keyword naming a parameter that is also filled positionally, more
+    positionals than parameters, entries with two or more '=', free keys (including '', 'kwargs',
+    'charge', 'weight', blanks inside keys), and the numeric spellings accepted or refused by float().
+
+    The renaming step [arg_to_fullname] is modelled as a map over the key names; this is what the loop
+    `arguments[new] = arguments.pop(old)` computes whenever no new name is a parameter name or
+    another old name (checked for the generated tables in DialectProofs.wf_generated; a table
+    leaving that shape breaks that lemma). *)
 From Coq Require Import String.
 From Coq Require Import List Ascii ZArith Bool.
 From CGV Require Import Base.PyBase Base.PyVal Gen.DialectGen.
@@ -34,6 +45,10 @@ Fixpoint split_entries (entries : list pystr) (args : list pystr) (kws : kwdict)
            | [] => split_entries r args kws
            end
   end.
+
+(** `if len(string) > 0: elements = string.split(';') …` *)
+Definition split_annotation (s : pystr) : res (list pystr * kwdict) :=
+  match s with [] => Ok ([], []) | _ => split_entries (py_split s ";"%char) [] [] end.
 
 (** Signature.bind( args, kwargs ) followed by check_and_cast_types and apply_defaults:
     walk the parameters in order. *)
@@ -73,15 +88,23 @@ Fixpoint cast_bound (fo : float_oracle) (bound : list (param * option pystr)) : 
 Definition rename_key (ren : list (pystr * pystr)) (k : pystr) : pystr :=
   match find (fun ab => str_eqb k (fst ab)) ren with Some ab => snd ab | None => k end.
 
-Definition parse_dialect (fo : float_oracle) (dl : dialect) (s : pystr) : res attrs :=
-  '(args, kws) <- (match s with [] => Ok ([], []) | _ => split_entries (py_split s ";"%char) [] [] end) ;;
+(** drop None, rename, free keys first then the reserved ones (dict update order) *)
+Definition reserved_items (dl : dialect) (vals : list (pystr * option pyval)) : attrs :=
+  flat_map (fun kv => match snd kv with Some v => [(rename_key (rename dl) (fst kv), v)] | None => [] end) vals.
+Definition free_items (rest : kwdict) : attrs := map (fun kv => (fst kv, VStr (snd kv))) rest.
+Definition finish (dl : dialect) (vals : list (pystr * option pyval)) (rest : kwdict) : attrs :=
+  aupdate (aupdate [] (free_items rest)) (reserved_items dl vals).
+
+(** everything after the splitting of the text *)
+Definition bind_cast (fo : float_oracle) (dl : dialect) (args : list pystr) (kws : kwdict) : res attrs :=
   '(bound, rest) <- bind_params (params dl) args kws ;;
   _ <- (if negb (accept_kwargs dl) && match rest with [] => false | _ => true end then Err (ESyntax (S "bind")) else Ok tt) ;;
   vals <- cast_bound fo bound ;;
-  (* drop None, rename, free keys first then the reserved ones (dict update order) *)
-  let reserved := flat_map (fun kv => match snd kv with Some v => [(rename_key (rename dl) (fst kv), v)] | None => [] end) vals in
-  let free := map (fun kv => (fst kv, VStr (snd kv))) rest in
-  Ok (aupdate (aupdate [] free) reserved).
+  Ok (finish dl vals rest).
+
+Definition parse_dialect (fo : float_oracle) (dl : dialect) (s : pystr) : res attrs :=
+  '(args, kws) <- split_annotation s ;;
+  bind_cast fo dl args kws.
 
 Definition parse_graph_base_node (fo : float_oracle) (s : pystr) : res attrs := parse_dialect fo graph_base_dialect s.
 Definition fragment_node_parser (fo : float_oracle) (s : pystr) : res attrs := parse_dialect fo fragment_node_dialect s.
